@@ -106,6 +106,7 @@ class C12(Prop):
             if ex["capture"] != ex0["capture"] and n0 > 0:
                 out.nontrivial = True
                 out.add("variants", "%s:%s" % (spec.get("seed"), name))
+                out.item("variant:%s:%s" % (name, sorted(cont.items())))
             tag = "container variant %s %s" % (name, cont)
             fc = failure_class(res)
             if fc:
